@@ -53,6 +53,16 @@ func c03Directed(t, C, S int) c03Case {
 }
 
 func c03Run(cs c03Case) (fs []F, ok bool, grew, inplace int) {
+	ok = true
+	fs = core.Guard("Append", func() []F {
+		var f []F
+		f, ok, grew, inplace = c03RunRaw(cs)
+		return f
+	})
+	return
+}
+
+func c03RunRaw(cs c03Case) (fs []F, ok bool, grew, inplace int) {
 	w := newWorld(typeByName(cs.Type), cs.C)
 	if cs.Directed {
 		for i, o := range cs.Ops {
